@@ -313,6 +313,10 @@ def show(e, depth=0):
         return "phi(%s)" % e[2]
     if k == "callret":
         return "ret:%s" % e[1].split("::")[-1]
+    if k == "upd":
+        return "%s{%s}" % (show(e[1]), ", ".join("%s: %s" % (n_, show(v)) for n_, v in e[2]))
+    if k == "sym":
+        return "$%s" % e[1]
     if k == "zst":
         return "()"
     return str(e)
